@@ -140,6 +140,7 @@ func checkC30(p *Prog, r *Report) {
 		}
 		r.check(!unbounded, "E5.timeout-kills", "no unbounded wait after the kill", p.pos(site), fnName(ewt), "after KillProcess the function returns without a blocking receive", "after killing a timed-out action ExecWithTimeout blocks on a channel receive with no timeout: cmd.Wait only returns when every holder of the output pipes has exited, so a descendant outside the process group (setsid, job control) keeps the timeout from being reported until it exits by itself")
 	}
+	p.timeoutReportingRules(r)
 	// (3)
 	rule = "E5.term-then-kill"
 	{
@@ -561,4 +562,100 @@ func callsToClosure(outer, f *ssa.Function) []ssa.Instruction {
 		})
 	}
 	return out
+}
+
+// timeoutReportingRules: (a) a run that ended with any error (a timeout comes back as context.DeadlineExceeded, not as an
+// exit status) and whose results file reports no failure gets a synthetic failure: the guard is runError != nil and
+// Failures() == 0, not narrowed to a kind of error. (b) a test's timeout defaults to the [test] timeout of the
+// configuration, the build's to the [build] one.
+func (p *Prog) timeoutReportingRules(r *Report) {
+	pto := p.Fn("test", "parseTestOutput")
+	if pto == nil {
+		r.unresolved("E5.timeout-kills", "test.parseTestOutput")
+	} else {
+		var runErr *ssa.Parameter
+		for _, prm := range pto.Params {
+			if prm.Name() == "runError" {
+				runErr = prm
+			}
+		}
+		n, narrowed := 0, ""
+		eachInstr(pto, false, func(_ *ssa.Function, i ssa.Instruction) {
+			c, ok := i.(*ssa.Call)
+			if !ok || !strings.HasSuffix(calleeName(&c.Call), "TestSuite).Add") {
+				return
+			}
+			// under Failures() == 0 ?
+			underNoFailures := false
+			for _, f := range factsAt(c) {
+				if bo, ok := f.V.(*ssa.BinOp); ok && bo.Op == token.EQL && f.Val {
+					if fc, ok := bo.X.(*ssa.Call); ok && strings.HasSuffix(calleeName(&fc.Call), ".Failures") {
+						underNoFailures = true
+					}
+				}
+			}
+			if !underNoFailures {
+				return
+			}
+			n++
+			for _, f := range factsAt(c) {
+				switch v := f.V.(type) {
+				case *ssa.Call:
+					if isCallTo(v, "errors.As", "errors.Is") {
+						narrowed = calleeName(&v.Call)
+					}
+				case *ssa.Extract:
+					if ta, ok := v.Tuple.(*ssa.TypeAssert); ok && runErr != nil && ta.X == ssa.Value(runErr) {
+						narrowed = "a type assertion on runError"
+					}
+				}
+			}
+		})
+		if n == 0 {
+			r.unresolved("E5.timeout-kills", "the synthetic failure added under Failures() == 0 in parseTestOutput")
+		} else {
+			r.check(narrowed == "", "E5.timeout-kills", "any run error with no reported failure becomes a failure", p.pos(pto.Pos()), fnName(pto), "the synthetic failure is added under runError != nil && Failures() == 0, for every kind of error", "the synthetic failure for `the run failed but the results file reports no failure` is added only for some errors ("+narrowed+"): a test that wrote passing results and then overran its timeout comes back with context.DeadlineExceeded, gets no failure, and the timed-out (killed) test is reported as passed")
+		}
+	}
+	ct := p.Fn("parse/asp", "createTarget")
+	if ct == nil {
+		r.unresolved("E10.timeout-defaults", "asp.createTarget")
+		return
+	}
+	section := func(v ssa.Value) string {
+		out := ""
+		for x := range backSlice(v, SliceOpts{}) {
+			if fa, ok := x.(*ssa.FieldAddr); ok {
+				k := fieldKey(fa)
+				if k == "core.Configuration.Test" {
+					out += "Test "
+				}
+				if k == "core.Configuration.Build" {
+					out += "Build "
+				}
+			}
+		}
+		return out
+	}
+	okT, okB, nT := false, false, 0
+	eachInstr(ct, false, func(_ *ssa.Function, i ssa.Instruction) {
+		st, ok := i.(*ssa.Store)
+		if !ok {
+			return
+		}
+		switch fieldKey(st.Addr) {
+		case "core.TestFields.Timeout":
+			nT++
+			sec := section(st.Val)
+			okT = strings.Contains(sec, "Test") && !strings.Contains(sec, "Build")
+		case "core.BuildTarget.BuildTimeout":
+			sec := section(st.Val)
+			okB = strings.Contains(sec, "Build") && !strings.Contains(sec, "Test")
+		}
+	})
+	if nT == 0 {
+		r.unresolved("E10.timeout-defaults", "stores to Test.Timeout / BuildTimeout in createTarget")
+		return
+	}
+	r.check(okT && okB, "E10.timeout-defaults", "test timeout defaults to [test] timeout, build timeout to [build] timeout", p.pos(ct.Pos()), fnName(ct), "each default is read from its own configuration section", "createTarget takes the default of a test's timeout from the wrong configuration section (e.g. [build] timeout for both): with `[test] timeout = 1m` a test without test_timeout or size runs on until the build timeout instead of being killed after a minute")
 }
